@@ -116,8 +116,8 @@ func VerifH_C10_return() {
 
 // The real Serve, with all its goroutines as tasks, over a scripted socket:
 // requests on streams 1 and 3 whose handlers return at once or are still
-// running, then one of ten connection-scoped violations (the six above, DATA
-// on a stream the peer has already ended, a stream window pushed past 2^31-1
+// running, then one of ten connection-scoped violations (the six above,
+// CONTINUATION on a stream the peer has already ended, a stream window pushed past 2^31-1
 // by a SETTINGS change after a WINDOW_UPDATE to exactly 2^31-1, HEADERS on a
 // stream that has been used, RST_STREAM on an idle stream), then a
 // request on stream 11 from a peer that has not seen the GOAWAY yet. The
@@ -168,8 +168,8 @@ func VerifH_C10_serve() {
 	var off []byte
 	var codes []ErrorCode
 	switch which {
-	case 6: // DATA on a stream the peer has half-closed (5.1)
-		off, codes = vFrame(0x0, 0x0, 1, []byte("x")), []ErrorCode{StreamClosedError, ProtocolError}
+	case 6: // CONTINUATION on a stream the peer has half-closed, no header block open (6.10)
+		off, codes = vFrame(0x9, 0x4, 1, nil), []ErrorCode{StreamClosedError, ProtocolError}
 	case 7: // stream window past 2^31-1 through SETTINGS_INITIAL_WINDOW_SIZE (6.9.2)
 		off = vFrame(0x8, 0x0, 1, []byte{0x7f, 0xff, 0x00, 0x00}) // 65535 + 0x7fff0000 = 2^31-1
 		off = append(off, vFrame(0x4, 0x0, 0, []byte{0, 4, 0, 1, 0, 0})...)
@@ -235,5 +235,5 @@ func VerifH_C10_serve() {
 	vPoolsSane("C10.serve")
 	vCover("C10.serve.goaway-while-running", goaway && hold && stays && returned)
 	vCover("C10.serve.window-by-settings", goaway && which == 7)
-	vCover("C10.serve.data-after-end", goaway && which == 6)
+	vCover("C10.serve.after-end-stream", goaway && which == 6)
 }
